@@ -61,6 +61,9 @@ P = {
  "C08": ("paired-field value provenance, edge guards per header key, registry exhaustiveness, decision tables, ordering derived from the installed stdlib's SSA",
          "Path/RawPath/RawQuery copied from one URL that is ParseRequestURI(req.RequestURI) on success else req.URL, RequestURI cleared; HTTP/1.1 constants; Host rewritten exactly when pass-through is off; every forwarding header set only on its own Get(K)==\"\" edge, proto by TLS, X-Real-Ip = host of SplitHostPort(RemoteAddr) before zone stripping, port from Host else 443/80; XHeaders exhaustive and removed first when untrusted; forward.New delegates to httputil.ReverseProxy, does not strip hop-by-hop headers itself, and must set its headers in a hook that the installed stdlib runs after hop-by-hop removal (derived from reverseproxy's SSA). Level 'other'.",
          "Known finding K1: the hook is Director (runs before hop-by-hop removal) - printed as KNOWN-FINDING, not repaired because the repair breaks a pinned test. NOT decided: stdlib escaping / hop-by-hop behaviour itself (trusted). Trusted: go/ssa, analyser, net/http/httputil.", "3/C08"),
+ "C11": ("value provenance of returned URLs (membership in the argument slice), sibling agreement of codecs, path rules over both ServeHTTPs, decision tables and edge guards with linear normal forms in the codecs",
+         "Every FindURL implementation returns only elements of the pool slice it was given; hash minting and lookup feed the same function of the URL to the hash, two-way codecs compare {Scheme,Host,Path} through the shared comparator; a bad cookie never causes a return or error response before normal selection; pinning only on the present edge with a copied URL, without calling the selection routine; a fresh cookie for the selection's URL is issued before forwarding; ErrNoCookie is not an error; AES authentication failure / expiry return errors and the decoded bytes are sliced only when long enough; the fallback codec consults its second codec whenever the first found nothing. Level 'other'.",
+         "NOT decided: cryptographic unforgeability (AES-GCM), round trip of url.Parse(u.String()) for exotic URLs. Trusted: go/ssa, analyser.", "3/C11"),
 }
 
 NA = {}
